@@ -103,19 +103,23 @@ impl vstd::std_specs::convert::FromSpecImpl<ThreadPoolBuildError> for SolveError
         dict(file="src/lib.rs", path="impl Game", members=[
             dict(path="fn solve", ret="out", vis="pub ", obligation="C05.V.solve.thread_errors",
                  rules=["R3", "R1", "R9", "R12", "R10"],
+                 body_subst=[(r"\.or_else\(\|\| thread::available_parallelism\(\)\.ok\(\)\)",
+                              ".or_else(|| -> (o: Option<NonZeroUsize>) ensures o == (match avail_spec() { Ok(n) => Some(n), Err(_) => None }) { thread::available_parallelism().ok() })",
+                              "closure contract (the closure's body is the real text, checked against the inserted contract)")],
                  contract="""ensures
     // a returned profile belongs to this game and carries exactly what the chosen solver returned
     out is Ok ==> out->Ok_0.0.game == self, // @ob C05.V.solve.result_plumbing
     // ONE thread never errors and uses the single-threaded variant of the requested method, with
     // the documented default parameters when none are given
-    num_threads == 1 ==> out is Ok
+    eff_threads(num_threads) == 1 ==> out is Ok
         && (out->Ok_0.1.regrets, out->Ok_0.0.probs) == single_spec(which_of(method), max_iter, max_reg, p_eff(params)), // @ob C05.V.solve.one_thread_never_errors
     // several threads: the documented thread-count error exactly when 3 x threads overflows, and then no solver runs
-    num_threads > 1 && num_threads * 3 > usize::MAX ==> out == Err::<(Strategies<I, A>, RegretBound), SolveError>(SolveError::ThreadOverflow), // @ob C05.V.solve.thread_overflow
+    eff_threads(num_threads) > 1 && eff_threads(num_threads) * 3 > usize::MAX ==> out == Err::<(Strategies<I, A>, RegretBound), SolveError>(SolveError::ThreadOverflow), // @ob C05.V.solve.thread_overflow
     // otherwise the multi-threaded variant of the requested method with (threads, 3 x threads); its
     // pool-construction error is the only other error
-    num_threads > 1 && num_threads * 3 <= usize::MAX ==>
-        match multi_spec(which_of(method), max_iter, max_reg, num_threads, (num_threads * 3) as usize, p_eff(params)) {
+    // (0 threads means the machine's parallelism, or 1 if that is unknown: eff_threads)
+    eff_threads(num_threads) > 1 && eff_threads(num_threads) * 3 <= usize::MAX ==>
+        match multi_spec(which_of(method), max_iter, max_reg, eff_threads(num_threads), (eff_threads(num_threads) * 3) as usize, p_eff(params)) {
             Ok(info) => out is Ok && (out->Ok_0.1.regrets, out->Ok_0.0.probs) == info,
             // (the error VALUE is `From::from(e)` applied by `?` -- Rust semantics, trusted; the impl of
             // From<ThreadPoolBuildError> is proved above to return ThreadSpawnError)
